@@ -47,7 +47,7 @@ PROPS["C14"] = {
 _PRINT_NOTE = ("assumed: Formatter::write_str appends its argument; <char as Display>::fmt writes the char (no width flags); vstd specs for str::chars/Vec/Seq/<&Vec>::into_iter; "
     "NumberBuf::as_str / Display write the number's (ASCII) text; SmallString derefs to its text; "
     "R12: the expression `o.iter().map(|e| (e.key.as_str(), &e.value))` (iterator adapter with a closure) is replaced by an assumed stub yielding the (key, value) pairs of the entries in order; "
-    "definition of elems (the sequence an IntoIterator yields); "
+    
     "THE KNOT: `impl PrintWithSize / PrecomputeSize / Print for Value` recurse through trait dispatch (generic print_array::<&Vec<Value>> calls back the impl), which Verus rejects outright; their bodies are verified as inherent methods of Value (rule R10, same text) and the trait impls the generic code calls are declared with the same contract and no body; the trait's specification functions for Value are identified with the case definitions by axioms -- partial correctness of a structural recursion, assumed. "
     "Value::count (capacity hint only) is a stub.")
 PROPS["C08"] = {"units": ["print"], "kani": [], "replay": [], "title": "Compact output", "level": "proof",
